@@ -1,5 +1,6 @@
 # chuk_mcp/server/protocol_handler.py
 from typing import Dict, Any, Optional, Callable, Tuple
+import asyncio
 import logging
 
 from ..protocol.messages.json_rpc_message import (
@@ -75,7 +76,18 @@ class ProtocolHandler:
 
         try:
             return await handler(message, session_id)
-        except Exception as e:
+        except (Exception, asyncio.CancelledError) as e:
+            if isinstance(e, asyncio.CancelledError):
+                # A cancellation of *this* task is passed on. A handler that
+                # awaited something which somebody else cancelled (a background
+                # task, a pooled connection) has simply failed, like with any
+                # other exception
+                try:
+                    task = asyncio.current_task()
+                except RuntimeError:
+                    task = None
+                if task is None or task.cancelling():
+                    raise
             # The handler's exception may not even be printable: dispatch must
             # not fail while reporting it
             try:
